@@ -405,6 +405,45 @@ func init() {
 		}
 		return out
 	})
+	caseMap := func(name string, f func(string) string) {
+		reg(name, func(m *Machine, a []Value) Value {
+			s := a[0].(StrVal)
+			if s.Abs != nil && s.Abs.Tbl != nil {
+				for _, w := range s.Abs.Tbl {
+					if f(w) != w {
+						m.unsupported("%s of a table token whose table is not closed under it", name)
+					}
+				}
+				return s // every entry is a fixed point
+			}
+			if c, ok := s.Concrete(); ok {
+				return StrVal{S: f(c)}
+			}
+			bs := m.strBytes(s)
+			out := make([]*smt.Term, len(bs))
+			for i, b := range bs {
+				// ASCII only: a byte >= 0x80 would be part of a multi-byte rune
+				if !m.Branch(m.byteLt(b, m.mkByte(0x80))) {
+					m.unsupported("%s of non-ASCII symbolic text", name)
+				}
+				lo, hi, d := byte('A'), byte('Z'), byte(32)
+				if name == "strings.ToUpper" {
+					lo, hi = 'a', 'z'
+				}
+				in := smt.And(smt.Not(m.byteLt(b, m.mkByte(lo))), smt.Not(m.byteLt(m.mkByte(hi), b)))
+				var shifted *smt.Term
+				if name == "strings.ToUpper" {
+					shifted = m.numBin(token.SUB, b, m.mkByte(d), numT{8, false})
+				} else {
+					shifted = m.numBin(token.ADD, b, m.mkByte(d), numT{8, false})
+				}
+				out[i] = smt.Ite(in, shifted, b)
+			}
+			return m.mkStr(out)
+		})
+	}
+	caseMap("strings.ToLower", strings.ToLower)
+	caseMap("strings.ToUpper", strings.ToUpper)
 	reg("strings.TrimSpace", func(m *Machine, a []Value) Value {
 		s := a[0].(StrVal)
 		if s.Abs != nil && strings.HasPrefix(s.Abs.Ctor, "join:") {
